@@ -536,8 +536,13 @@ pub fn judge(cfg: &WorldCfg, res: &WorldResult, rep: &mut Report, args: &Args) {
                         p.eval(Some(hash_of(&format!("{replay}{a}{r}"))));
                         p.count("e2e_h2_origin_rounds_judged", 1);
                     }
-                    // (A) nobody is cancelled: all requests of a round start together, so one attempt per key serves them all
-                    if cfg.cancel_pct == 0 && n_dials > spellings.len() {
+                    // (A) nobody is cancelled: the first request of a key dials, the others wait for that attempt or find
+                    //     its connection registered with the pool. (Only with max_idle_per_host > 0: with 0 the pool keeps no
+                    //     handle of its own, and requests are not guaranteed to be polled for the first time before an
+                    //     earlier one's connection is up - FuturesUnordered hands control back after two self-wakes - so a
+                    //     late starter legitimately finds nothing and dials. The burst with 0 is judged deterministically
+                    //     by the clientapi engine, behind a gated dial.)
+                    if cfg.cancel_pct == 0 && cfg.max_idle > 0 && n_dials > spellings.len() {
                         p.violation("e2e:h2-origin-dialed-more-than-once-in-a-burst", format!("round {r}: {} HTTP/2 requests to {a} ({} spellings) caused {n_dials} dials | world {replay}", in_round.len(), spellings.len()), replay.clone());
                     }
                     // (B) every key used in this round already has a healthy HTTP/2 connection in the pool
